@@ -3,6 +3,7 @@ package main
 import (
 	"fmt"
 	"go/token"
+	"go/types"
 
 	"golang.org/x/tools/go/ssa"
 )
@@ -230,6 +231,22 @@ func c05(r *Report) {
 		r.Decide("callgraph", "the proxy core configures its transport's plain dial only", n >= 2, fmt.Sprintf("%d stores to Transport fields, none to a TLS dial hook", n), "no store to a Transport field found: the anchor moved", token.NoPos)
 	})
 
+	r.Guard("C05.R1", "the HTTP/2 relay of a decrypted tunnel reaches its upstream over TLS only", func() {
+		n := 0
+		for _, f := range w.Funcs("h2") {
+			for _, c := range calls(f) {
+				switch calleeName(c) {
+				case "net.Dial", "net.DialTimeout", "(*net.Dialer).Dial", "(*net.Dialer).DialContext", "net.DialTCP":
+					r.Fail("callgraph", fnName(f)+": "+site(f, c)+" opens a plain connection", "the HTTP/2 relay can reach its upstream without TLS (a fallback for servers that do not answer the ClientHello with TLS): the stream decrypted from the tunnel, headers included, goes upstream in cleartext", nil, c.Pos())
+				case "crypto/tls.Dial", "crypto/tls.DialWithDialer", "crypto/tls.Client", "(*crypto/tls.Dialer).DialContext":
+					n++
+					r.Touch(f)
+				}
+			}
+		}
+		r.Decide("callgraph", "M/h2: the upstream connection is a TLS connection", n >= 1, fmt.Sprintf("%d tls dial site(s), no plain dial", n), "no TLS dial found in h2: the anchor moved", token.NoPos)
+	})
+
 	r.Guard("C05.R2", "every request of a tunnel is read on the upgraded connection: TLS state attached exactly when the connection is TLS, and the loop follows the session's connection", func() {
 		// stores to req.TLS
 		forms := map[string]bool{}
@@ -368,6 +385,7 @@ func c05(r *Report) {
 	})
 
 	r.Guard("C05.R3", "the session's connection follows the TLS upgrade (a hijacker gets the decrypted connection)", func() {
+		sessionConnIsServedConnRule(r)
 		// what setConn records is what Hijack and the connection loop hand out: every field
 		// setConn stores is loaded by Hijack and by currentConn, and each of them returns
 		// nothing but those fields
@@ -490,6 +508,26 @@ func c05(r *Report) {
 	r.Guard("C05.R6", "the tunnel's authority is used: as certificate host when SNI is absent and as URL host when the request has none", func() {
 		tlsConfigFreshRule(r)
 		connectAuthorityKeptRule(r)
+		// the authority reaches the certificate as a host: its port is removed by
+		// net.SplitHostPort (which understands bracketed IPv6 literals), not by cutting the text
+		if cert := r.W.Fn("mitm", "Config.cert"); cert != nil && cert.Blocks != nil && len(cert.Params) > 1 {
+			r.Touch(cert)
+			split := false
+			for _, c := range plainCalls(cert, "net.SplitHostPort") {
+				if isParamVal(c.Call.Args[0], cert.Params[1]) {
+					split = true
+				}
+			}
+			cut := false
+			for _, in := range instrs(cert) {
+				if sl, isSl := in.(*ssa.Slice); isSl {
+					if b, isB := sl.X.Type().Underlying().(*types.Basic); isB && b.Kind() == types.String {
+						cut = true
+					}
+				}
+			}
+			r.Decide("flow", "(*M/mitm.Config).cert: the tunnel authority's port is removed by net.SplitHostPort", split && !cut, "SplitHostPort(hostname); the name is never sliced", "the port is cut off the authority by text (at the last colon): an IPv6 literal keeps its brackets, the certificate carries a DNS name \"[::1]\" instead of the IP, the client refuses it and the tunnel is not decrypted", cert.Pos())
+		}
 		// TLSForHost(req.Host) of the CONNECT request
 		ok := false
 		var pos token.Pos = hcr.Pos()
@@ -564,4 +602,42 @@ func init() {
 			}
 		})
 	}
+}
+
+// sessionConnIsServedConnRule: the connection recorded on the session after a
+// TLS upgrade is the connection the tunnel's requests are then served on (the
+// value handed to handle): with a traffic-shaped listener that is the shaping
+// wrapper, through which the per-response shaping context is reset. Shared by
+// C05.R3 and C18.R5.
+func sessionConnIsServedConnRule(r *Report) {
+	hcr := r.W.Fn("", "Proxy.handleConnectRequest")
+	if hcr == nil || hcr.Blocks == nil {
+		r.Undecided("M.Proxy.handleConnectRequest", "UNRESOLVED")
+		return
+	}
+	r.Touch(hcr)
+	g := G(hcr)
+	n := 0
+	for _, sc := range plainCalls(hcr, "(*M.Session).setConn") {
+		n++
+		ok := false
+		for _, hc := range plainCalls(hcr, "(*M.Proxy).handle") {
+			if g.PathTo([]ssa.Instruction{sc}, false, nil, func(i ssa.Instruction) bool { return i == ssa.Instruction(hc) }) == nil {
+				continue
+			}
+			a, b := sc.Call.Args[1], hc.Call.Args[2]
+			if a == b || sameAs(a, b) {
+				ok = true
+			}
+			for _, la := range resolveAll(a) {
+				for _, lb := range resolveAll(b) {
+					if la == lb {
+						ok = true
+					}
+				}
+			}
+		}
+		r.Decide("flow", "(*M.Proxy).handleConnectRequest: "+site(hcr, sc)+" records the connection the tunnel is served on", ok, "setConn(c, brw) and handle(ctx, c, brw) name the same connection", "the session records another connection than the one the tunnel's requests are served on (the bare TLS connection instead of the shaping wrapper): later exchanges of the tunnel do not reach the wrapper - their shaping context is never reset, and a hijacker is handed a connection that bypasses it", sc.Pos())
+	}
+	r.Decide("flow", "(*M.Proxy).handleConnectRequest records the upgraded connection", n >= 1, fmt.Sprintf("%d setConn call(s)", n), "no setConn call", hcr.Pos())
 }
